@@ -215,19 +215,15 @@ func (w *world) checkCrashImage(seq *Seq, k, opIdx int, img db.KeyValueStore, wi
 		c.Violation(class, what+"the next block cannot be stored: "+nsErr.Error(), cs, false)
 	case !evOK:
 		class := "crash:event-query-differs:" + kind
-		if !disciplined && (hasSnap || (withModel && mflags[2] != "1")) {
-			// what survives the repair: a snapshot written in the middle of the process's life
-			// (Blockchain.WriteRunningEventFilter before shutdown) and a later revert of a block it covers. The
-			// snapshot may no longer be in the image: a restarted process accepted (and consumed) it and the stale
-			// columns were persisted with the window at the next window end - the model of the repaired code
-			// predicts exactly that false negative for this undisciplined history (index_covers = 0)
-			class = "crash:stale-filter-snapshot:event-false-negatives"
+		if hasSnap && !disciplined {
+			// a snapshot written in the middle of the process's life (Blockchain.WriteRunningEventFilter before
+			// shutdown) that outlived the revert of a block it covers: RevertHead must delete it inside its batch
+			// (findings/C05-snapshot-invalidated-by-revert.patch). Ordinary history, ordinary violation: the class
+			// is NOT registered (the former known id crash:stale-filter-snapshot:event-false-negatives is fixed)
+			class = staleMidlifeClass
 			c.Hist["stale-midlife-snapshot-accepted-by-fresh-process"]++
-			if !hasSnap {
-				c.Hist["stale-midlife-snapshot-persisted-with-the-window"]++
-			}
 		} else if hasSnap {
-			// a snapshot that the restart following it should have consumed (repaired in /repo): not known
+			// a snapshot that the restart following it should have consumed (repaired in /repo 1231538): not known
 			class = "crash:stale-shutdown-snapshot:event-false-negatives"
 		}
 		c.Violation(class, what+"fresh process event query differs from the receipts: "+evWhat, cs, false)
@@ -240,21 +236,15 @@ func (w *world) checkCrashImage(seq *Seq, k, opIdx int, img db.KeyValueStore, wi
 		c.Violation("model-mismatch:crash-image", what+"decoded image differs from the model's\n   impl : "+enc+"\n   model: "+mp[0], cs, true)
 		return
 	}
-	if disciplined {
-		c.Hist["crash-image-of-snapshot-disciplined-history(C05_index applies)"]++
-		if mflags[3] == "1" && (!evOK || mflags[2] != "1") {
-			c.Violation("theorem:index-covers-fails-for-disciplined-history", what+"the snapshot discipline holds (no revert between a snapshot and the next restart) but the event index has false negatives: "+evWhat, cs, false)
+	// C05_index: no hypothesis about snapshots is left; every crash image of an environment-respecting history
+	// must have a complete event index — in the model and in the implementation
+	if mflags[3] == "1" {
+		c.Hist["crash-image-under-C05_index"]++
+		if !disciplined {
+			c.Hist["crash-image-of-history-with-a-revert-after-a-midlife-snapshot(C05_index applies since the revert repair)"]++
 		}
-		if mflags[3] == "1" && mflags[4] != "1" {
-			c.Violation("theorem:discipline-does-not-imply-fresh", what+"snap_discipline holds but ops_fresh does not (C05_discipline_fresh)", cs, true)
-		}
-	} else {
-		c.Hist["crash-image-of-history-with-a-revert-after-a-midlife-snapshot"]++
-	}
-	if mflags[4] == "1" {
-		c.Hist["crash-image-of-snapshot-fresh-history(C05_index_fresh applies)"]++
-		if mflags[3] == "1" && (!evOK || mflags[2] != "1") {
-			c.Violation("theorem:index-covers-fails-for-fresh-history", what+"ops_fresh holds but the event index has false negatives: "+evWhat, cs, false)
+		if !evOK || mflags[2] != "1" {
+			c.Violation("theorem:index-covers-fails", what+fmt.Sprintf("ops_env holds but the event index has false negatives (model index_covers=%s, implementation ok=%v): %s", mflags[2], evOK, evWhat), cs, false)
 		}
 	}
 	if mflags[3] == "1" && (mflags[0] != "1" || mflags[5] != "1" || mflags[1] != "1") {
@@ -270,6 +260,9 @@ func (w *world) checkCrashImage(seq *Seq, k, opIdx int, img db.KeyValueStore, wi
 		c.Violation("model-mismatch:index-covers", what+fmt.Sprintf("model index_covers=%s, events ok=%v %s", mflags[2], evOK, evWhat), cs, true)
 	}
 }
+
+// a false negative served from a mid-life snapshot that a later revert should have deleted (the fixed finding)
+const staleMidlifeClass = "crash:stale-midlife-snapshot-after-revert:event-false-negatives"
 
 func short(s string) string {
 	if len(s) > 400 {
